@@ -51,6 +51,10 @@ pub struct Cfg {
     pub price_bps: Vec<u32>,
     /// Seconds into the first window at which the run starts.
     pub start_offset: i64,
+    /// C19: every landed privileged treasury transaction is re-run on a fork of its pre-state with
+    /// forged signers (always on when the focus is C19, a small fraction of the other runs).
+    #[serde(default)]
+    pub twins: bool,
 }
 
 #[derive(Clone, Copy, Debug, PartialEq, Eq, Serialize, Deserialize)]
@@ -95,6 +99,22 @@ pub enum Op {
     Sync { back: usize, token: usize, signer: Actor },
     Restart,
     FixRestart,
+    /// Administrative treasury instructions (generated in twin runs so that C19 reaches them).
+    Admin(AdminOp),
+}
+
+#[derive(Clone, Debug, Serialize, Deserialize)]
+pub enum AdminOp {
+    /// toggle a token flag off and on again
+    ToggleFlag { token: usize, deposit: bool },
+    /// remove a token from the treasury vault config, insert it again and restore its flags
+    ReinsertToken { token: usize },
+    SetReferral { seed: u8 },
+    /// initialise vault config #1 (once), authorise it, authorise #0 again
+    SwitchVaultConfig,
+    TransferReceiver { alt: bool },
+    Withdraw { token: usize, amount: u64 },
+    ClaimFees,
 }
 
 #[derive(Clone, Debug, Serialize, Deserialize)]
@@ -140,6 +160,30 @@ struct Sim {
     price_bps: Vec<u32>,
     /// `last_restart_slot` the store has acknowledged (role checks fail while it differs from the cluster's).
     store_restart_slot: u64,
+    twins: bool,
+}
+
+/// What a privileged instruction demands from its signer.
+#[derive(Clone, Debug)]
+enum Req {
+    Role(&'static str),
+    /// `complete_gt_exchange`: the signer must own the exchange; `(old target, mint)` pairs are re-pointed
+    /// to the twin's own token accounts.
+    ExchangeOwner(Vec<(Pubkey, Pubkey)>),
+}
+
+fn resign(ixs: &[Instruction], map: &[(Pubkey, Pubkey)]) -> Vec<Instruction> {
+    ixs.iter()
+        .map(|ix| {
+            let mut ix = ix.clone();
+            for m in ix.accounts.iter_mut() {
+                if let Some((_, to)) = map.iter().find(|(from, _)| *from == m.pubkey) {
+                    m.pubkey = *to;
+                }
+            }
+            ix
+        })
+        .collect()
 }
 
 fn floor_mul_div(a: u64, b: u64, c: u64) -> BigUint {
@@ -180,6 +224,86 @@ impl Sim {
             obs.fault("cpi_failure");
         }
         out
+    }
+
+    /// A privileged treasury transaction; when it lands and twins are on, forged-signer twins of it are run
+    /// on forks of the pre-state (C19).
+    fn priv_tx(&mut self, ixs: &[Instruction], name: &'static str, req: Req, signer: Pubkey, cpi_fail: u8, obs: &mut Obs) -> TxOutcome {
+        let pre = if self.twins { Some(self.w.clone()) } else { None };
+        let out = self.tx(ixs, cpi_fail, obs);
+        if out.ok {
+            if let Some(pre) = pre {
+                self.run_twins(&pre, ixs, name, &req, signer, obs);
+            }
+        }
+        out
+    }
+
+    fn run_twins(&self, pre: &World, ixs: &[Instruction], name: &str, req: &Req, signer: Pubkey, obs: &mut Obs) {
+        let mut variants: Vec<&str> = vec!["no_role", "every_other_role"];
+        if matches!(req, Req::ExchangeOwner(_)) {
+            variants.push("other_user");
+        }
+        for variant in variants {
+            let mut f = pre.clone();
+            let twin = if variant == "other_user" {
+                if signer != self.fx.stranger {
+                    self.fx.stranger
+                } else {
+                    self.fx.users[0]
+                }
+            } else {
+                let k = f.new_key("c19-twin");
+                f.fund(&k, 1_000_000_000_000);
+                k
+            };
+            if variant == "every_other_role" {
+                let required = match req {
+                    Req::Role(r) => Some(*r),
+                    Req::ExchangeOwner(_) => None,
+                };
+                let mut granted = true;
+                for role in chainsim::deploy::ALL_ROLES.iter().chain(TREASURY_ROLES.iter()) {
+                    if Some(*role) == required {
+                        continue;
+                    }
+                    granted &= f.process(self.fx.grant_role_ix(&twin, role)).ok;
+                }
+                if !granted {
+                    obs.probe("c19_grant_failed");
+                    continue;
+                }
+            }
+            let mut map = vec![(signer, twin)];
+            if let Req::ExchangeOwner(targets) = req {
+                for (old, mint) in targets {
+                    let _ = f.process(create_ata_ix(&twin, &twin, mint));
+                    map.push((*old, ata(&twin, mint)));
+                }
+            }
+            let before = f.accounts.clone();
+            let out = f.process_tx(&resign(ixs, &map), &TxOpts::default());
+            obs.fault("byzantine_twin");
+            obs.probe(&format!("c19_twin:treasury.{name}"));
+            obs.outcome(variant, name, &out.class());
+            obs.event(|| format!("twin {name} {variant} -> {}", out.class()));
+            obs.require(
+                !out.ok,
+                "C19",
+                "stranger_accepted",
+                || format!("ix={name},variant={variant},program=treasury"),
+                || format!("{name} landed when signed by a {variant} address {twin} instead of {signer}"),
+            );
+            if !out.ok {
+                obs.require(
+                    f.accounts == before,
+                    "C19",
+                    "rejection_changed_state",
+                    || format!("ix={name},variant={variant},program=treasury"),
+                    || format!("{name} was rejected ({}) but accounts changed", out.class()),
+                );
+            }
+        }
     }
 
     /// Invariants checked after every step.
@@ -244,9 +368,10 @@ impl Scenario for Buyback {
         "treasury_buyback"
     }
 
-    fn generate(&self, seed: u64, run: u64, tier: Tier, _focus: &str) -> (Cfg, Vec<Step>) {
+    fn generate(&self, seed: u64, run: u64, tier: Tier, focus: &str) -> (Cfg, Vec<Step>) {
         let mut r = Rng::derive(seed, run, "treasury.cfg");
         let faults = run % 2 == 1;
+        let twins = focus == "C19" || run % 16 == 7;
         let n_tokens = r.usize(1, 3);
         let n_users = r.usize(2, 6);
         let long_tail = match tier {
@@ -275,6 +400,7 @@ impl Scenario for Buyback {
             grow_step,
             price_bps,
             start_offset: r.range_i64(0, WINDOW - 1),
+            twins,
         };
 
         let mut g = Rng::derive(seed, run, "treasury.plan");
@@ -335,7 +461,7 @@ impl Scenario for Buyback {
                     let signer = if faults && g.chance(1, 4) { *g.pick(&[Actor::Keeper, Actor::Stranger, Actor::StoreKeeper]) } else { Actor::Admin };
                     Op::SetFactor { buyback: g.bool(), factor: draw_factor(&mut g, true), signer }
                 } else if k < 80 {
-                    Op::Advance { secs: if faults && g.chance(1, 4) { g.range_i64(-30, 0) } else { g.range_i64(0, 1800) } }
+                    Op::Advance { secs: if faults && g.chance(1, 6) { 0 } else { g.range_i64(0, 1800) } }
                 } else if k < 85 {
                     if faults {
                         Op::Dust { token: g.usize(0, n_tokens - 1), amount: g.log_u64(10u64.pow(12)), back: g.usize(0, 1), to_bank: g.chance(3, 4) }
@@ -361,6 +487,22 @@ impl Scenario for Buyback {
                     Op::MintGt { user: g.usize(0, n_users - 1), amount: g.log_u64(max_mint) }
                 };
                 body.push(op);
+            }
+            // administrative instructions, so that the forged-signer twins reach them too
+            if twins {
+                for _ in 0..g.usize(1, 4) {
+                    let a = match g.below(8) {
+                        0 => AdminOp::ToggleFlag { token: g.usize(0, n_tokens - 1), deposit: g.bool() },
+                        1 => AdminOp::ReinsertToken { token: g.usize(0, n_tokens - 1) },
+                        2 => AdminOp::SetReferral { seed: g.below(256) as u8 },
+                        3 => AdminOp::SwitchVaultConfig,
+                        4 => AdminOp::TransferReceiver { alt: g.bool() },
+                        5 | 6 => AdminOp::Withdraw { token: g.usize(0, n_tokens - 1), amount: g.log_u64(10u64.pow(9)) },
+                        _ => AdminOp::ClaimFees,
+                    };
+                    let at = g.usize(0, body.len());
+                    body.insert(at, Op::Admin(a));
+                }
             }
             // most holders do request an exchange at some point of the round
             for u in 0..n_users {
@@ -543,11 +685,11 @@ impl Scenario for Buyback {
         let n_tokens = cfg.n_tokens.clamp(1, 3);
         let n_users = cfg.n_users.clamp(1, 8);
         let start_ts = 19_676 * WINDOW + cfg.start_offset.rem_euclid(WINDOW);
-        let fx = Fx::deploy(&mut w, n_tokens, cfg.token_order, n_users, &gt, start_ts);
+        let fx = Fx::deploy(&mut w, n_tokens, cfg.token_order, n_users, &gt, start_ts, cfg.twins);
         let mut price_bps = cfg.price_bps.clone();
         price_bps.resize(n_tokens, 10_000);
         let store_restart_slot = w.last_restart_slot;
-        let mut sim = Sim { w, fx, wins: vec![], price_bps, store_restart_slot };
+        let mut sim = Sim { w, fx, wins: vec![], price_bps, store_restart_slot, twins: cfg.twins };
         sim.invariants(obs);
 
         for (i, step) in steps.iter().enumerate() {
@@ -641,8 +783,10 @@ fn run_op(sim: &mut Sim, op: &Op, obs: &mut Obs) {
             let which = if *buyback { "buyback" } else { "gt" };
             let pre = factors(&sim.w, &sim.fx.config).unwrap_or((0, 0));
             let cur = if *buyback { pre.1 } else { pre.0 };
-            let ix = sim.fx.set_factor_ix(*buyback, *factor, &sim.fx.signer(*signer));
-            let out = sim.tx(&[ix], 0, obs);
+            let sk = sim.fx.signer(*signer);
+            let ix = sim.fx.set_factor_ix(*buyback, *factor, &sk);
+            let name = if *buyback { "set_buyback_factor" } else { "set_gt_factor" };
+            let out = sim.priv_tx(&[ix], name, Req::Role("TREASURY_ADMIN"), sk, 0, obs);
             obs.outcome(actor_name(*signer), if *buyback { "set_buyback_factor" } else { "set_gt_factor" }, &out.class());
             let post = factors(&sim.w, &sim.fx.config).unwrap_or((0, 0));
             let now = if *buyback { post.1 } else { post.0 };
@@ -705,7 +849,7 @@ fn run_op(sim: &mut Sim, op: &Op, obs: &mut Obs) {
             for t in 0..sim.fx.n_tokens {
                 ixs.push(create_ata_ix(&s, &bank, &sim.fx.mint(t)));
             }
-            let out = sim.tx(&ixs, 0, obs);
+            let out = sim.priv_tx(&ixs, "prepare_gt_bank", Req::Role("TREASURY_KEEPER"), s, 0, obs);
             obs.outcome(actor_name(*signer), "prepare_gt_bank", &out.class());
             obs.event(|| format!("prepare_bank win{wi} by {} -> {}", actor_name(*signer), out.class()));
             if *signer != Actor::Keeper {
@@ -744,7 +888,7 @@ fn run_op(sim: &mut Sim, op: &Op, obs: &mut Obs) {
             }
             ixs.push(sim.fx.deposit_ix(&s, t, &vault, &bank));
             let pre_bank = token_balance(&sim.w, &ata(&bank, &sim.fx.mint(t)));
-            let out = sim.tx(&ixs, *cpi_fail, obs);
+            let out = sim.priv_tx(&ixs, "deposit_to_treasury_vault", Req::Role("TREASURY_KEEPER"), s, *cpi_fail, obs);
             obs.outcome(actor_name(*signer), "deposit_to_treasury_vault", &out.class());
             let post_bank = token_balance(&sim.w, &ata(&bank, &sim.fx.mint(t)));
             obs.event(|| format!("deposit token{t} {amount} win{wi} by {} -> {} (bank vault {pre_bank} -> {post_bank})", actor_name(*signer), out.class()));
@@ -775,10 +919,10 @@ fn run_op(sim: &mut Sim, op: &Op, obs: &mut Obs) {
             }
         }
         Op::Advance { secs } => {
+            // Solana's clock is monotone: plans never step backwards
+            let secs = &(*secs).max(0);
             sim.w.advance(secs.unsigned_abs().max(1), *secs);
-            if *secs < 0 {
-                obs.fault("clock_regression");
-            } else if *secs == 0 {
+            if *secs == 0 {
                 obs.fault("clock_stall");
             }
             obs.sim_seconds += secs.unsigned_abs();
@@ -818,7 +962,7 @@ fn run_op(sim: &mut Sim, op: &Op, obs: &mut Obs) {
                 return;
             };
             let pre = bank_view(&sim.w, &bank).unwrap_or_default();
-            let out = sim.tx(&[ix], *cpi_fail, obs);
+            let out = sim.priv_tx(&[ix], "confirm_gt_buyback", Req::Role("TREASURY_KEEPER"), s, *cpi_fail, obs);
             obs.outcome(actor_name(*signer), "confirm_gt_buyback", &out.class());
             if *signer != Actor::Keeper {
                 obs.fault("byzantine_signer");
@@ -888,9 +1032,10 @@ fn run_op(sim: &mut Sim, op: &Op, obs: &mut Obs) {
                 return;
             };
             let bank = sim.wins[wi].bank;
-            let ix = sim.fx.sync_ix(&sim.fx.signer(*signer), t, &bank);
+            let sk = sim.fx.signer(*signer);
+            let ix = sim.fx.sync_ix(&sk, t, &bank);
             let pre = bank_view(&sim.w, &bank);
-            let out = sim.tx(&[ix], 0, obs);
+            let out = sim.priv_tx(&[ix], "sync_gt_bank_v2", Req::Role("TREASURY_WITHDRAWER"), sk, 0, obs);
             obs.outcome(actor_name(*signer), "sync_gt_bank", &out.class());
             obs.event(|| format!("sync win{wi} token{t} by {} -> {}", actor_name(*signer), out.class()));
             if out.ok {
@@ -904,6 +1049,7 @@ fn run_op(sim: &mut Sim, op: &Op, obs: &mut Obs) {
                 }
             }
         }
+        Op::Admin(a) => admin_op(sim, a, obs),
         Op::Restart => {
             sim.w.last_restart_slot = sim.w.clock.slot;
             obs.fault("cluster_restart");
@@ -914,6 +1060,72 @@ fn run_op(sim: &mut Sim, op: &Op, obs: &mut Obs) {
             obs.outcome("admin", "update_last_restarted_slot", &out.class());
             if out.ok {
                 sim.store_restart_slot = sim.w.last_restart_slot;
+            }
+        }
+    }
+}
+
+fn admin_op(sim: &mut Sim, a: &AdminOp, obs: &mut Obs) {
+    let admin = sim.fx.tadmin;
+    let keeper = sim.fx.tkeeper;
+    let mut go = |sim: &mut Sim, ix: Instruction, name: &'static str, role: &'static str, signer: Pubkey, obs: &mut Obs| -> bool {
+        let out = sim.priv_tx(&[ix], name, Req::Role(role), signer, 0, obs);
+        obs.outcome(if signer == admin { "tadmin" } else { "tkeeper" }, name, &out.class());
+        obs.event(|| format!("{name} -> {}", out.class()));
+        out.ok
+    };
+    match a {
+        AdminOp::ToggleFlag { token, deposit } => {
+            let t = *token % sim.fx.n_tokens;
+            let flag = if *deposit { "allow_deposit" } else { "allow_withdrawal" };
+            for value in [false, true] {
+                let ix = sim.fx.toggle_flag_ix(&admin, t, flag, value);
+                go(sim, ix, "toggle_token_flag", "TREASURY_ADMIN", admin, obs);
+            }
+        }
+        AdminOp::ReinsertToken { token } => {
+            let t = *token % sim.fx.n_tokens;
+            let ix = sim.fx.remove_token_ix(&admin, t);
+            go(sim, ix, "remove_token_from_treasury_vault", "TREASURY_ADMIN", admin, obs);
+            let ix = sim.fx.insert_token_ix(&admin, t);
+            go(sim, ix, "insert_token_to_treasury_vault", "TREASURY_ADMIN", admin, obs);
+            for flag in ["allow_deposit", "allow_withdrawal"] {
+                let ix = sim.fx.toggle_flag_ix(&admin, t, flag, true);
+                go(sim, ix, "toggle_token_flag", "TREASURY_ADMIN", admin, obs);
+            }
+        }
+        AdminOp::SetReferral { seed } => {
+            let base = UNIT / 1000 * (*seed as u128);
+            let factors = vec![base, base + UNIT / 100, base + UNIT / 50, base + UNIT / 20];
+            let ix = sim.fx.set_referral_reward_ix(&admin, factors);
+            go(sim, ix, "set_referral_reward", "TREASURY_ADMIN", admin, obs);
+        }
+        AdminOp::SwitchVaultConfig => {
+            let tvc1 = sim.fx.tvc_pda(1);
+            if sim.w.get(&tvc1).is_none() {
+                let ix = sim.fx.init_tvc_ix(&admin, 1);
+                go(sim, ix, "initialize_treasury_vault_config", "TREASURY_ADMIN", admin, obs);
+            }
+            let ix = sim.fx.set_tvc_ix(&admin, &tvc1);
+            go(sim, ix, "set_treasury_vault_config", "TREASURY_ADMIN", admin, obs);
+            let ix = sim.fx.set_tvc_ix(&admin, &sim.fx.tvc);
+            go(sim, ix, "set_treasury_vault_config", "TREASURY_ADMIN", admin, obs);
+        }
+        AdminOp::TransferReceiver { alt } => {
+            let next = if *alt { sim.fx.stranger } else { sim.fx.d.admin };
+            let ix = sim.fx.transfer_receiver_ix(&admin, &next);
+            go(sim, ix, "transfer_receiver", "TREASURY_OWNER", admin, obs);
+        }
+        AdminOp::Withdraw { token, amount } => {
+            let t = *token % sim.fx.n_tokens;
+            let have = token_balance(&sim.w, &sim.fx.treasury_vaults[t]);
+            let target = ata(&sim.fx.users[0], &sim.fx.mint(t));
+            let ix = sim.fx.withdraw_ix(&keeper, t, &target, (*amount).min(have));
+            go(sim, ix, "withdraw_from_treasury_vault", "TREASURY_WITHDRAWER", keeper, obs);
+        }
+        AdminOp::ClaimFees => {
+            if let Some(ix) = sim.fx.claim_fees_ix(&keeper) {
+                go(sim, ix, "claim_fees", "TREASURY_KEEPER", keeper, obs);
             }
         }
     }
@@ -949,7 +1161,8 @@ fn claim(sim: &mut Sim, back: usize, user: usize, mode: ClaimMode, cpi_fail: u8,
     let pre_ex = exchange_amount(&sim.w, &exchange);
     let pre_vaults: Vec<u64> = triples.iter().map(|t| token_balance(&sim.w, &t.1)).collect();
     let pre_targets: Vec<u64> = triples.iter().map(|t| token_balance(&sim.w, &t.2)).collect();
-    let out = sim.tx(&[ix], cpi_fail, obs);
+    let req = Req::ExchangeOwner(triples.iter().map(|t| (t.2, t.0)).collect());
+    let out = sim.priv_tx(&[ix], "complete_gt_exchange", req, signer, cpi_fail, obs);
     obs.outcome(role, "complete_gt_exchange", &out.class());
     let post_bank = bank_view(&sim.w, &bank).unwrap_or_default();
     let post_vaults: Vec<u64> = triples.iter().map(|t| token_balance(&sim.w, &t.1)).collect();
